@@ -634,7 +634,7 @@ func init() {
 			}
 			jp := optics.Join[conv, *I64, int](copyPtrLens{}, derefLens{})
 			LensBy(c, "Join(<lens handing out a pointer to a copy of W>, <lens through that pointer>)", jp,
-				func(p *conv, b int) { p.W = I64(b) }, func(p *conv) int { return int(p.W) }, []int{0, -3, 1 << 40}, fillConv)
+				func(p *conv, b int) { p.W = I64(b) }, func(p *conv) int { return int(p.W) }, []int{0, -3, 1 << 30}, fillConv)
 		})
 		Derive(c, "BiMapF", func() {
 			LensBy(c, "BiMapF[conv, F32, float64](\"f\")", optics.BiMapF[conv, F32, float64]("f"), func(p *conv, b float64) { p.f = F32(b) }, func(p *conv) float64 { return float64(p.f) }, []float64{0, -1.5, 1024.25}, fillConv)
